@@ -125,6 +125,13 @@ func (managerSuite) Run(h map[string]string, ops []string) []string {
 			}
 		}
 	}
+	// secondary observer (CustomConfig read back through Config()): a per-name entry supplied by an extra default
+	// constructor, and an entry supplied by ONE explicit config object that every create of this case reuses — each
+	// circuit must end with its own name's entry, whatever was created before it
+	m.DefaultCircuitProperties = append(m.DefaultCircuitProperties, func(name string) circuit.Config {
+		return circuit.Config{General: circuit.GeneralConfig{CustomConfig: map[interface{}]interface{}{"owner": "low-" + name}}}
+	})
+	shared := circuit.Config{General: circuit.GeneralConfig{CustomConfig: map[interface{}]interface{}{"tier": "x"}}}
 	ids := map[*circuit.Circuit]int{}
 	idOf := func(c *circuit.Circuit) string {
 		if c == nil {
@@ -151,14 +158,19 @@ func (managerSuite) Run(h map[string]string, ops []string) []string {
 				for _, l := range f[2:] {
 					cfgs = append(cfgs, layerConfig(l))
 				}
+				cfgs = append(cfgs, shared)
 				c, err := m.CreateCircuit(f[1], cfgs...)
 				if err != nil {
 					return "err"
 				}
 				ids[c] = len(ids)
 				cfg := c.Config()
-				return fmt.Sprintf("ok %s to=%d mc=%d fbmc=%d fo=%s fc=%s dis=%s fbd=%s ii=%s", idOf(c), int64(cfg.Execution.Timeout), cfg.Execution.MaxConcurrentRequests,
-					cfg.Fallback.MaxConcurrentRequests, b01(cfg.General.ForceOpen), b01(cfg.General.ForcedClosed), b01(cfg.General.Disabled), b01(cfg.Fallback.Disabled), b01(cfg.Execution.IgnoreInterrupts))
+				cc := "1"
+				if o, t := cfg.General.CustomConfig["owner"], cfg.General.CustomConfig["tier"]; o != "low-"+f[1] || t != "x" || len(shared.General.CustomConfig) != 1 {
+					cc = fmt.Sprintf("0:owner=%v,tier=%v,shared-map-entries=%d", o, t, len(shared.General.CustomConfig))
+				}
+				return fmt.Sprintf("ok %s to=%d mc=%d fbmc=%d fo=%s fc=%s dis=%s fbd=%s ii=%s cc=%s", idOf(c), int64(cfg.Execution.Timeout), cfg.Execution.MaxConcurrentRequests,
+					cfg.Fallback.MaxConcurrentRequests, b01(cfg.General.ForceOpen), b01(cfg.General.ForcedClosed), b01(cfg.General.Disabled), b01(cfg.Fallback.Disabled), b01(cfg.Execution.IgnoreInterrupts), cc)
 			case "get":
 				return idOf(m.GetCircuit(f[1]))
 			case "all":
